@@ -365,7 +365,7 @@ def gen_pois_case(rng, cid, fn=None, force=None):
     if fn in ('get_godambe', 'GIM_uncert', 'LRT_adjust') and not multinom and nb and rng.random() < 0.4:
         c['adjusts'] = [lib.dyadic(rng, 0.75, 1.25, 4) for _ in range(nb)]
     if fn == 'Wald_stat':
-        diffs = [lib.dyadic(rng, -0.5, 0.5, 4) for _ in nested]
+        diffs = [lib.dyadic(rng, -0.5, 0.5, 4) or 0.25 for _ in nested]
         if rng.random() < 0.5:
             fp = list(p0)
             for ix, d in zip(nested, diffs):
@@ -477,7 +477,7 @@ def relerr(a, bb, scale=None):
     """max |a - b| / max |b|   (or entrywise / scale when a scale is given)"""
     a = np.asarray(a, dtype=float).ravel(); bb = np.asarray(bb, dtype=float).ravel()
     if scale is not None:
-        return float(np.max(np.abs(a - bb) / np.asarray(scale, dtype=float)))
+        return float(np.max(np.abs(a - bb) / np.maximum(np.asarray(scale, dtype=float), 1e-300)))
     s = np.max(np.abs(bb))
     return float(np.max(np.abs(a - bb)) / (s if s > 0 else 1.0))
 
@@ -561,14 +561,16 @@ def run_pois_stream(ctx, base):
         val_finite = finite(r.get('val') or []) and finite(byid[g['half']['id']].get('val') or [])
         # an O(eps^2) (central) or O(eps) (one-sided) perturbation of H may make an ill-conditioned matrix indefinite: NaN uncertainties
         # are a violation only where the allowed error times the condition number is small
-        must_be_finite = order == 2 and C_ORDER2 * c['eps'] ** 2 * cf['cond'] < 0.25
+        # (away from the optimum the exact observed information of a multinom model can itself be indefinite: closed form NaN too)
+        cf_finite = cf.get('val') is None or bool(np.all(np.isfinite(cf['val'])))
+        must_be_finite = order == 2 and cf_finite and C_ORDER2 * c['eps'] ** 2 * cf['cond'] < 0.25
         if not finite([inner['H'], inner.get('J', []), inner.get('cU', [])]) or (must_be_finite and not val_finite):
             ctx.obligation('B%d finite results' % bid, False, 'predicate', 'non-finite')
             report(ctx, 'B-nonfinite', 'Godambe.%s returned non-finite values on a well-conditioned linear Poisson model' % c['fn'],
                           data={'stream': 'pois', 'case': c, 'impl': r})
             continue
         if not val_finite:
-            ctx.count('B.finite-difference error made an ill-conditioned matrix indefinite (statistic is NaN; not compared)')
+            ctx.count('B.statistic is NaN (indefinite information matrix: exact one indefinite too, or ill-conditioned within the O(eps^2) allowance); not compared')
         full_aug = list(c['p0']) + ([r['theta_opt']] if c['multinom'] else [])
         # ---- L1: (H, J, cU) against the model over Q
         rh = byid[g['half']['id']]
@@ -618,21 +620,23 @@ def run_pois_stream(ctx, base):
             qlog.append((name, e1, e2))
             if order == 2:
                 bound = C_ORDER2 * c['eps'] ** 2 * (max(1.0, cf['cond']) if name not in ('H', 'J', 'cU') else 1.0) + noise
-                worst = max(worst, e1 / c['eps'] ** 2)
+                if e1 > 1000 * noise:
+                    worst = max(worst, e1 / c['eps'] ** 2 / (max(1.0, cf['cond']) if name not in ('H', 'J', 'cU') else 1.0))
                 if e1 > bound:
                     bad = bad or '%s: relative error %.3g at eps=%g exceeds C*eps^2 = %.3g' % (name, e1, c['eps'], bound)
-                if 1000 * noise < e1 <= 0.1 and e1 > 1e-9:
+                # halving: the truncation terms of H all have one sign (B > 0), so its error must fall by ~4; in J, cU and the
+                # statistics terms of both signs can cancel, so they are tested only where the error has its typical size
+                if 1000 * noise < e1 <= 0.1 and e1 > 1e-9 and (name == 'H' or e1 >= 0.5 * c['eps'] ** 2):
                     ctx.count('B.halving test applied (second order)')
-                    if e2 > 0.45 * e1 + 10 * noise:
+                    if e2 > (0.45 if name == 'H' else 0.6) * e1 + 10 * noise:
                         bad = bad or '%s: error %.3g at eps, %.3g at eps/2: not O(eps^2)' % (name, e1, e2)
             else:
                 # one-sided stencils (absolute step eps): first order by design, with model-dependent constants and mixed-sign
                 # error terms; nothing is required of them here beyond the correspondence with the model (L1, L2)
                 ctx.count('B.first-order case: closed form recorded only (%s)' % ('error fell' if e2 < e1 else 'error did not fall'))
-        ctx.stats['B.max relative err/eps^2 (central cases)'] = max(ctx.stats.get('B.max relative err/eps^2 (central cases)', 0.0), round(worst, 3))
+        ctx.stats['B.max relative err/eps^2 (central cases, above round-off; statistics / cond)'] = max(ctx.stats.get('B.max relative err/eps^2 (central cases, above round-off; statistics / cond)', 0.0), round(worst, 3))
         ok = bad is None
         ctx.obligation('B%d %s vs closed forms within O(eps^%d), eps and eps/2' % (bid, c['fn'], order), ok, 'predicate', bad or '')
-        ctx.obligations[-1]['worst'] = (worst, cf['cond'], c['eps'], c['fn'], noise, order, qlog, c['pclass'], c['log'], c['multinom'])
         if not ok:
             report(ctx, 'B-closed-form', 'Godambe.%s on a linear Poisson model does not match its closed form: %s' % (c['fn'], bad),
                           data={'stream': 'pois', 'case': c, 'impl': r, 'impl_half_eps': rh,
@@ -690,7 +694,7 @@ def run_pois_stream(ctx, base):
                               data={'stream': 'pois', 'case': c, 'impl': byid[c['id']], 'coq': rr})
 
 C_ORDER2 = 40.0      # |stat(eps) - closed| <= C eps^2 (x condition number for the statistics); observed <= 6 eps^2 on the unchanged tree
-C_MODEL = 8
+C_MODEL = 16
 
 # ------------------------------------------------------------------------------------------------------
 # (4) stream C: mixture chi-square tail probability
